@@ -366,7 +366,33 @@ func (c *Ctx) checkAttachmentLinking() {
 				continue
 			}
 			// the decision: an If testing len(attachmentURLs)
+			// the linking phase split off into a helper that is handed the list and links (`linkMessageAttachments(msg, urls)`)
+			var linkHelpers []*ssa.Function
+			isLinkPhase := func(in ssa.Instruction) bool {
+				call, ok := in.(*ssa.Call)
+				if !ok {
+					return false
+				}
+				h := call.Call.StaticCallee()
+				if h == nil || h == fn || !core.InModule(h) || len(h.Blocks) == 0 || len(core.CallsTo(h, link)) == 0 {
+					return false
+				}
+				for _, a := range call.Call.Args {
+					if core.Strip(a) == ssa.Value(attParam) {
+						return true
+					}
+				}
+				return false
+			}
+			core.AllInstrs(fn, func(in ssa.Instruction) {
+				if isLinkPhase(in) {
+					linkHelpers = append(linkHelpers, in.(*ssa.Call).Call.StaticCallee())
+				}
+			})
 			isDecision := func(in ssa.Instruction) bool {
+				if isLinkPhase(in) {
+					return true
+				}
 				ifi, ok := in.(*ssa.If)
 				if !ok {
 					return false
@@ -400,9 +426,13 @@ func (c *Ctx) checkAttachmentLinking() {
 			r.Check(!found, "C16.5-attachments-linked", fk(fn)+": every return after the row was stored passes the attachment-link decision", c.pos(site), "",
 				"after the message row was stored the function can return"+posOf(c, w)+" without considering its attachments: the uploads stay unlinked and are garbage-collected while the message exists")
 			// and the link call is reachable from the decision's non-empty edge
-			r.Check(len(core.CallsTo(fn, link)) > 0, "C16.5-attachments-linked", fk(fn)+": calls adp.FileLinkAttachments", c.pos(site), "", "published attachments are never linked")
+			links := core.CallsTo(fn, link)
+			for _, h := range linkHelpers {
+				links = append(links, core.CallsTo(h, link)...)
+			}
+			r.Check(len(links) > 0, "C16.5-attachments-linked", fk(fn)+": calls adp.FileLinkAttachments", c.pos(site), "", "published attachments are never linked")
 			// linked to the new message's id
-			for _, l := range core.CallsTo(fn, link) {
+			for _, l := range links {
 				args := core.CallArgs(l.Common())
 				okID := len(args) >= 4 && derivesAny(args[3], func(v ssa.Value) bool {
 					call, ok := v.(*ssa.Call)
